@@ -1,6 +1,10 @@
 import Blackbird.Props.C18
+import Blackbird.Props.C18Lex
 #print axioms Blackbird.C18_layout_irrelevant
 #print axioms Blackbird.C18_every_layout_parses
 #print axioms Blackbird.C18_loaded_program_unchanged
 #print axioms Blackbird.C18_final_newline_irrelevant
 #print axioms Blackbird.C18_statement_line_ends
+#print axioms Blackbird.C18_comment_is_skipped
+#print axioms Blackbird.C18_comment_text_irrelevant
+#print axioms Blackbird.C18_comment_line_is_blank
